@@ -264,6 +264,20 @@ def pts_face_edge():
     return st.builds(mk, st.integers(0, 29), _unit, _unit, st.booleans())
 
 
+def edge_scaled_cases(lo=2, hi=29):
+    """(point, res) pairs whose point lies within +-1.5 cell widths of a dodecahedron edge: the cell found there
+    straddles or hugs the face edge at every resolution (where the reflect/unfold logic of the projection decides)."""
+    def mk(e, t, u, r):
+        a, b = _EDGES[e]
+        base = refgeo.slerp_vec(a, b, t)
+        n = refgeo._norm(refgeo._cross(a, b))
+        d = (2 * u - 1) * 1.5 * refgeo.cell_width(r)
+        v = refgeo._norm(tuple(base[i] + d * n[i] for i in range(3)))
+        lon, lat = refgeo.frame_to_lonlat(v)
+        return {"lon": lon, "lat": max(-90.0, min(90.0, lat)), "res": r, "cls": "face_edge_scaled"}
+    return st.builds(mk, st.integers(0, 29), _unit, _unit, resolutions(lo, hi))
+
+
 def pts_seam():
     """Points along a triangle seam (face centre -> vertex or edge midpoint), displaced sideways."""
     def mk(f, j, kind, t, u, side):
@@ -295,3 +309,51 @@ def pts_wrapped():
 
 def points():
     return st.one_of(pts_base(), pts_base(), pts_base(), pts_wrapped())
+
+
+@st.composite
+def block_refinements(draw):
+    """Antichain over a block of 64 (or 256) consecutive cells of one resolution: most block cells are 'filler' that can
+    never merge (3 of their 4 children), a few 'sites' are complete (whole, all 4 children, or all 16 grandchildren) so
+    that merges happen at chosen list positions: at the very head, at the very tail, adjacent, or far apart, and
+    cascade (a merged parent completing its own sibling group) when a whole aligned group of four is complete.
+    Lists are 100-800 cells long."""
+    span = draw(st.sampled_from([3, 3, 4]))
+    base = draw(cell_ids(1, 29 - span - 2))
+    r = refids.res_of(base) + span
+    pool = refids.children(base, r)
+    n = len(pool)
+    ngroups = n // 4
+    state = {}                                  # pool index -> state
+    nsites = draw(st.integers(1, 4))
+    for _ in range(nsites):
+        where = draw(st.sampled_from(["head", "tail", "random", "random"]))
+        g = {"head": 0, "tail": ngroups - 1}.get(where)
+        if g is None:
+            g = draw(st.integers(0, ngroups - 1))
+        kind = draw(st.sampled_from(["cascade", "cascade", "single", "partial"]))
+        idx = [4 * g + i for i in range(4)]
+        if kind == "cascade":                   # whole group complete: some members expanded, the others whole
+            for i in idx:
+                state[i] = draw(st.sampled_from(["whole", "kids", "kids", "grandkids"]))
+        elif kind == "single":                  # one member's children complete, the group itself incomplete
+            state[idx[draw(st.integers(0, 3))]] = "kids"
+        else:                                   # three complete members, the fourth filler
+            for i in idx[:3]:
+                state[i] = draw(st.sampled_from(["whole", "kids"]))
+    drop_some = draw(st.booleans())
+    out = []
+    for i, c in enumerate(pool):
+        stt = state.get(i, "filler")
+        if stt == "whole":
+            out.append(c)
+        elif stt == "kids":
+            out.extend(refids.children(c, r + 1))
+        elif stt == "grandkids":
+            out.extend(refids.children(c, r + 2))
+        else:
+            kids = refids.children(c, r + 1)
+            if drop_some and i % 7 == 3:
+                continue
+            out.extend(kids[:3] if i % 2 else kids[1:])
+    return out
